@@ -8,6 +8,13 @@ class BoundCallable(CanCustomize, object):
         self.__executor = executor
         self.__fn = fn
 
+        # Executors created by chaining with_* calls onto this callable inherit
+        # the executor's name, exactly as when chaining onto the executor itself.
+        for name_attr in ("_name", "_CustomizableThreadPoolExecutor__name"):
+            if hasattr(executor, name_attr):
+                self._name = getattr(executor, name_attr)
+                break
+
         try:
             update_wrapper(self, fn)
         except AttributeError:
